@@ -49,7 +49,9 @@ RULE = ("worlds of <= 8 specifications (interfaces and class declarations, multi
         "keys on EVERY registry, one assignment, the same lookups; and, in worlds with classes, 1-3 DYNAMIC blocks: "
         "registrations needing IB at a later position, a lookup that subscribes the earlier-position spec (or the same "
         "spec twice), the multi-arity lookups, classImplements*(B, IB), the same lookups, classImplementsOnly, again "
-        "(each world step starts a new phase with its own observed world).  Non-trivial = at least two different values and the default were returned; "
+        "(each world step starts a new phase with its own observed world); and ARITY-0 blocks: a sub-registry is "
+        "queried with arity-0 lookups only (no specification to subscribe to) around register / overwrite / unregister "
+        "in one of its bases and around a new grand-base assigned to that base.  Non-trivial = at least two different values and the default were returned; "
         "distinct = (registries, arities registered, number of distinct values returned)")
 TRUSTED_BASE = [
     "harness/translate/walkers.py (fail-closed Python-ast translator of _lookup/_lookupAll/_subscriptions, "
@@ -245,6 +247,67 @@ def _everywhere(rng, world, ifaces, net, n_regs, nkeys):
     return out
 
 
+def _anc_regs(bases):
+    out = {}
+
+    def go(r):
+        if r not in out:
+            out[r] = set()
+            for b in bases[r]:
+                out[r] |= {b} | go(b)
+        return out[r]
+    for r in range(len(bases)):
+        go(r)
+    return out
+
+
+def _arity0(rng, world, ifaces, net, bases, n_regs):
+    """A sub-registry queried with ARITY-0 lookups ONLY (such lookups subscribe to no specification) around
+    mutations of one of its bases and a re-basing of that base: its own caches are cleared first by a
+    registration of its own, then: lookups, register in the base, lookups, overwrite, lookups, unregister,
+    lookups, a registration in a registry that is not yet above, the base gets it as a new base, lookups."""
+    rel = RC.Rel(world)
+    anc = _anc_regs(bases)
+    pairs = [(r0, rl) for rl in range(n_regs) for r0 in anc[rl]]
+    if not pairs:
+        return []
+    r0, rl = rng.choice(pairs)
+    p = rng.choice(ifaces)
+    nm = rng.choice([0, 0, 1, 2])
+    gen = [y for y in rel.ancestors(p) if y in ifaces or y == 0]
+    keys = [(p, nm), (rng.choice(gen), nm), (rng.choice(ifaces + [0]), rng.choice([0, 1, 2]))]
+    looks = [["lookup", rl, [], q, n] for q, n in keys]
+    ops = []
+
+    def mut(m):
+        _apply(net, m)
+        ops.append(m)
+        ops.extend(looks)
+
+    clear = ["register", rl, [], rng.choice(ifaces), 3, _other_value(rng, net[rl].get(((), 0, 3), 0))]
+    clear[3] = rng.choice(ifaces)
+    mut(clear)
+    cur = net[r0].get(((), p, nm), 0)
+    mut(["register", r0, [], p, nm, _other_value(rng, cur)])
+    mut(["register", r0, [], p, nm, _other_value(rng, net[r0][((), p, nm)])])
+    if rng.random() < 0.7:
+        mut(["unregister", r0, [], p, nm, None])
+    # a new grand-base
+    others = [g for g in range(n_regs) if g != r0 and r0 not in anc[g] and g not in anc[r0] and g < r0]
+    if others:
+        g = rng.choice(others)
+        m = ["register", g, [], p, nm, _other_value(rng, net[g].get(((), p, nm), 0))]
+        _apply(net, m)
+        ops.append(m)
+        ops.extend(looks)
+        keep = [b for b in bases[r0] if b not in anc[g] and g not in anc[b]]
+        nb = sorted(set(keep + [g]), reverse=True)
+        ops.append(["setregbases", r0, nb])
+        bases[r0] = nb
+        ops.extend(looks)
+    return ops
+
+
 def _dynamic(rng, track, ifaces, classes, net, bases, n_regs):
     """An in-place change of a class declaration between repeated multi-arity lookups: registrations that
     need IB at a LATER position, a lookup that subscribes the lookup object to the spec of an EARLIER
@@ -351,7 +414,11 @@ def gen_case(rng, big=False):
     for op in body[cut:]:
         _apply(net, op)
     ops += block
-    # 5. in-place changes of class declarations between repeated multi-arity lookups
+    # 5. arity-0 lookups only, through a sub-registry, around changes of a base
+    if n_regs >= 2:
+        for _ in range(rng.choice([1, 1, 2])):
+            ops += _arity0(rng, world, ifaces, net, bases, n_regs)
+    # 6. in-place changes of class declarations between repeated multi-arity lookups
     if classes:
         for _ in range(rng.choice([1, 2, 3])):
             ops += _dynamic(rng, track, ifaces, classes, net, bases, n_regs)
